@@ -5,3 +5,4 @@ CONSTANT Defects = {}
 INVARIANT InvRoundTrip
 INVARIANT InvInjective
 INVARIANT InvIdLen
+INVARIANT InvLossless
